@@ -65,7 +65,7 @@ def model_text(ident, role):
             f"dx_dt = -q*x + {ident}\ndz_dt = Conditional(Gt({ident}, 0), -z, z) + v2*w\ndw_dt = {ident} - w*abs(x) + z**3 + Mod(z, 2.0)\n")
 
 
-def observe(text, backend, ident_map, ru=False):
+def observe(text, backend, ident_map, ru=False, shape=None):
     """returns ('error', class) or ('ok', {function: values by canonical name})"""
     ode, _, err, ex = impl.load_text(text)
     if err is not None:
@@ -97,14 +97,14 @@ def observe(text, backend, ident_map, ru=False):
         partial = {}
         if backend in ("numpy", "jax"):
             try:
-                code = impl.gen_python(ode, schemes=impl.ALL_SCHEMES, backend=backend, stiff_states=stiff, remove_unused=ru)
+                code = impl.gen_python(ode, schemes=impl.ALL_SCHEMES, backend=backend, stiff_states=stiff, remove_unused=ru, shape=shape)
             except Exception:  # noqa: BLE001
                 if backend != "numpy":
                     raise
                 # a name may be refused for one scheme only: what the other schemes generate is judged on its own
                 for sch in impl.ALL_SCHEMES:
                     try:
-                        partial[sch] = impl.gen_python(ode, schemes=[sch], backend=backend, stiff_states=stiff, remove_unused=ru)
+                        partial[sch] = impl.gen_python(ode, schemes=[sch], backend=backend, stiff_states=stiff, remove_unused=ru, shape=shape)
                     except Exception:  # noqa: BLE001
                         pass
                 if not partial:
@@ -180,10 +180,15 @@ def main(argv=None):
     core.CASE_SECONDS = 120
     want_cache = {}
     for ident in idents:
-        for role, ru in (("state", False), ("parameter", False), ("intermediate", False), ("conditional", False),
-                         ("unread_state", True), ("unread_intermediate", True), ("unread_parameter", True),
-                         ("unread_state", False), ("state", True), ("intermediate", True)):
-            if a.tier == "quick" and (role, ru) in (("unread_state", False), ("state", True), ("intermediate", True)) \
+        from gotranx.codegen.base import Shape
+        runs = [("state", False, None), ("parameter", False, None), ("intermediate", False, None), ("conditional", False, None),
+                ("unread_state", True, None), ("unread_intermediate", True, None), ("unread_parameter", True, None),
+                ("unread_state", False, None), ("state", True, None), ("intermediate", True, None)]
+        if ident in ("shape", "len", "values", "states"):
+            # the shape option changes which locals the numpy functions use for themselves
+            runs += [("state", False, Shape.single), ("parameter", False, Shape.single), ("intermediate", False, Shape.single)]
+        for role, ru, shp in runs:
+            if a.tier == "quick" and shp is None and (role, ru) in (("unread_state", False), ("state", True), ("intermediate", True)) \
                     and hash((ident, role, a.seed, "ru")) % 3:
                 continue
             fresh = "zq_fresh"
@@ -195,12 +200,14 @@ def main(argv=None):
                 backends.append("C")
             if a.tier != "quick" or h % 5 == 1 or ident in ("jax", "numpy", "lambda") or ident.startswith("_values_"):
                 backends.append("jax")
+            if shp is not None:
+                backends = ["numpy"]
             for be in backends:
                 def one():
-                    got = observe(text, be, {ident: "ID"}, ru)
-                    if (role, be, ru) not in want_cache:
-                        want_cache[(role, be, ru)] = observe(ref_text, be, {fresh: "ID"}, ru)
-                    want = want_cache[(role, be, ru)]
+                    got = observe(text, be, {ident: "ID"}, ru, shp)
+                    if (role, be, ru, shp) not in want_cache:
+                        want_cache[(role, be, ru, shp)] = observe(ref_text, be, {fresh: "ID"}, ru, shp)
+                    want = want_cache[(role, be, ru, shp)]
                     rep.count(f"{be}:{got[0]}")
                     if want[0] != "ok":
                         rep.count("reference_model_failed:" + str(want[1])[:40])
@@ -237,7 +244,7 @@ def main(argv=None):
                                               {"kind": "validator", "relation": "Sem.valid_body (fresh, non-reserved bindings)", "text": text, "failing_input": None},
                                               failing_input_found=False)
                 core.guarded(rep, text, one)
-                rep.case(key=(ident, role, be, ru), nontrivial=ident not in SHAPES)
+                rep.case(key=(ident, role, be, ru, str(shp)), nontrivial=ident not in SHAPES)
         rep.sample({"identifier": ident, "text": model_text(ident, "parameter")}, limit=3)
     drv.close()
     return rep.finish(
